@@ -51,6 +51,10 @@ struct params {
   std::vector<int> priority_order;    // PCT: thread ids, highest priority first (others appended by id)
   std::vector<std::pair<int, double>> kind_demote;  // PCT: at a hook of this kind, demote the running thread with this probability
   u64 max_steps{400000};
+  // Starvation probe: once per execution, a thread that reaches a spin point may keep polling this many times (as if the
+  // thread it waits for were descheduled for that long) before it is treated as waiting. Finds behaviour that only
+  // changes after very long waits (spin limits, back-off tiers). 0 = a spinning thread yields at once.
+  u64 spin_patience{0};
 };
 
 inline bool is_write_kind(int k) {
@@ -92,6 +96,8 @@ class scheduler {
     kind_demotions = 0;
     spins = 0;
     restarts = 0;
+    patience_spent = false;
+    patient_polls = 0;
     verdict.clear();
     kind_counts.assign(128, 0);
     assign_priority(0);
@@ -147,7 +153,16 @@ class scheduler {
     ++th[me].local_steps;
     ++th[me].op_steps;
     if (kind >= 0 && kind < 128) ++kind_counts[static_cast<std::size_t>(kind)];
-    if (kind == unodb::verif::SPIN) { th[me].spinning = true; ++th[me].spin_streak; ++spins; }
+    if (kind == unodb::verif::SPIN) {
+      ++th[me].spin_streak;
+      ++spins;
+      if (!patience_spent && prm.spin_patience != 0 && th[me].spin_streak <= prm.spin_patience) {
+        ++patient_polls;  // keeps the token: the lock holder stays descheduled
+      } else {
+        if (prm.spin_patience != 0 && th[me].spin_streak > prm.spin_patience) patience_spent = true;
+        th[me].spinning = true;
+      }
+    }
     else if (kind == unodb::verif::RESTART) ++restarts;
     if (is_write_kind(kind) || kind == K_HARNESS_WRITE) { note_write_by(me); th[me].spinning = false; th[me].spin_streak = 0; }
     if (steps > prm.max_steps) fatal_verdict("livelock", "execution exceeded the step budget under the scheduler");
@@ -200,6 +215,8 @@ class scheduler {
 
   // ---------------------------------------------------------- observation
   u64 steps{0}, nswitches{0}, intra_op_switches{0}, spins{0}, restarts{0}, signature{0x51}, kind_demotions{0};
+  u64 patient_polls{0};
+  bool patience_spent{false};
   std::vector<switch_rec> switches;
   std::vector<u64> kind_counts;
   int threads_used() const { return nthreads; }
